@@ -521,3 +521,63 @@ Proof.
   - eexists. split; [vm_compute; reflexivity|discriminate].
   - right. left. split; [reflexivity|split; discriminate].
 Qed.
+
+(* ------------------------------------------------------------ the cache map: last write wins *)
+Section CacheMapProofs.
+  Variable E : Type.
+
+  Lemma bytes_eqb_refl a : bytes_eqb a a = true.
+  Proof. now apply bytes_eqb_eq. Qed.
+  Lemma bytes_eqb_trans_false k i id : bytes_eqb k i = true -> bytes_eqb i id = false -> bytes_eqb k id = false.
+  Proof. intros H1 H2. apply bytes_eqb_eq in H1. now subst. Qed.
+
+  Lemma get_update_same id (e : E) m : map_get E id (map_update E id e m) = Some e.
+  Proof.
+    induction m as [|[k e'] r IH]; cbn; [now rewrite bytes_eqb_refl|].
+    destruct (bytes_eqb k id) eqn:Ek; cbn; rewrite Ek; auto.
+  Qed.
+  Lemma get_update_other i id (e : E) m :
+    bytes_eqb i id = false -> map_get E id (map_update E i e m) = map_get E id m.
+  Proof.
+    intros H. induction m as [|[k e'] r IH]; cbn; [now rewrite H|].
+    destruct (bytes_eqb k i) eqn:Ek; cbn.
+    - now rewrite (bytes_eqb_trans_false _ _ _ Ek H).
+    - destruct (bytes_eqb k id); auto.
+  Qed.
+  Lemma get_delete_same id (m : cmap E) : map_get E id (map_delete E id m) = None.
+  Proof.
+    induction m as [|[k e'] r IH]; cbn; [reflexivity|].
+    destruct (bytes_eqb k id) eqn:Ek; cbn; [exact IH|]. now rewrite Ek.
+  Qed.
+  Lemma get_delete_other i id (m : cmap E) :
+    bytes_eqb i id = false -> map_get E id (map_delete E i m) = map_get E id m.
+  Proof.
+    intros H. induction m as [|[k e'] r IH]; cbn; [reflexivity|].
+    destruct (bytes_eqb k i) eqn:Ek; cbn.
+    - rewrite (bytes_eqb_trans_false _ _ _ Ek H). exact IH.
+    - destruct (bytes_eqb k id); auto.
+  Qed.
+
+  Theorem cache_map_last_write : forall ops id (m : cmap E),
+      map_get E id (map_run E ops m) = last_write E id ops (map_get E id m).
+  Proof.
+    induction ops as [|o ops IH]; intros id m; [reflexivity|].
+    unfold map_run in *. cbn [fold_left last_write]. rewrite IH. destruct o as [i e|i]; cbn [map_step].
+    - destruct (bytes_eqb i id) eqn:Ei.
+      + apply bytes_eqb_eq in Ei. subst. now rewrite get_update_same.
+      + now rewrite get_update_other.
+    - destruct (bytes_eqb i id) eqn:Ei.
+      + apply bytes_eqb_eq in Ei. subst. now rewrite get_delete_same.
+      + now rewrite get_delete_other.
+  Qed.
+End CacheMapProofs.
+
+(* the history of seeded change F: write (key k1, state 7), then write (None, None): the entry holds None *)
+Lemma cache_history_example :
+  let e1 := mkce (Some (JInt 1)) (Some []) (Some (JStr [97; 98]%N)) (Some (JInt 7)) in
+  let e2 := mkce (Some (JInt 2)) (Some []) None None in
+  map_get centry [49]%N (map_run centry [CUpdate [49]%N e1; CUpdate [50]%N e1; CUpdate [49]%N e2; CDelete [50]%N] [])
+  = Some e2 /\
+  map_get centry [50]%N (map_run centry [CUpdate [49]%N e1; CUpdate [50]%N e1; CUpdate [49]%N e2; CDelete [50]%N] [])
+  = None.
+Proof. split; reflexivity. Qed.
